@@ -1,8 +1,8 @@
 CONSTANTS
   InitCap = 0
-  Vals = {7, 9, 11}
-  MaxCap = 100
-  Depth = 3
+  Vals = {7, 9}
+  MaxCap = 4
+  Depth = 5
 INIT Init
 NEXT Next
 VIEW View
